@@ -2,8 +2,8 @@
    string stay the extracted Coq datatypes.  No Extract Constant / Extract Inductive of ours. *)
 From Coq Require Extraction ExtrOcamlBasic.
 From DHV Require NumOps Interp Constants Tables Homogeneous Heterogeneous Stratified Framework
-  WilsonStratified WilsonV50 Fracs Graded SlurryCalc SlurryState Pipeline PipelineSlurry Pump OpPoint Excel FileName Viewer.
+  WilsonStratified WilsonV50 Fracs Graded SlurryCalc SlurryState Pipeline PipelineSlurry Pump OpPoint Excel ExcelStore FileName Viewer.
 Extraction Language OCaml.
 Set Extraction KeepSingleton.
 Separate Extraction NumOps Interp Constants Tables Homogeneous Heterogeneous Stratified Framework
-  WilsonStratified WilsonV50 Fracs Graded SlurryCalc SlurryState Pipeline PipelineSlurry Pump OpPoint Excel FileName Viewer.
+  WilsonStratified WilsonV50 Fracs Graded SlurryCalc SlurryState Pipeline PipelineSlurry Pump OpPoint Excel ExcelStore FileName Viewer.
